@@ -412,6 +412,7 @@ package tcell
 
 //@ func (*tScreen).encodeRune
 //@   arith bv
+//@   inline EncodeRune
 //@   requires t.encoder != nil
 //@   calls [encoded] call(Transform, recv, pdst, psrc, peof, ret) ==> peof && (encoderAccepts(ret.0, ret.2, pdst[0]) ==> appendedBytes(result, buf, pdst, ret.0))
 //@   calls [acs] call(Transform, recv, pdst, psrc, peof, ret) ==> !encoderAccepts(ret.0, ret.2, pdst[0]) && len(buf) == 0 && has(t.acs, r) ==> appendedStr(result, buf, t.acs[r])
@@ -423,6 +424,7 @@ package tcell
 
 //@ func (*tScreen).CanDisplay
 //@   arith bv
+//@   inline EncodeRune
 //@   requires t.encoder != nil
 //@   calls [decision] call(Transform, recv, pdst, psrc, peof, ret) ==> peof &&
 //@            result == (encoderAccepts(ret.0, ret.2, pdst[0]) || has(t.acs, r) || (checkFallbacks && has(t.fallback, r)))
